@@ -15,9 +15,21 @@ CONE = ["Props/C02.v", "Proofs/MuxProofs.v", "Proofs/MuxInv.v", "Model/Writer.v"
 
 def check(rep):
     rng = random.Random(rep.seed * 7919 + 2)
+    # output larger than 4 GiB, muxed for real through the harness's sparse stream: the 64-bit mdat size form must still tile the file
+    import common
+    import check_c13
+    with common.Lock():
+        common.harness_build(["run"])
+    bf, nbig = check_c13.big_payload(rep)
+    for i, f in enumerate(bf[:3]):
+        rep.violation("big_payload_%d" % i, dict(f, kind="input"))
+    rep.coverage["big_payload_histories"] = nbig
+    if bf:
+        return
     hs = muxgen.exhaustive_small()
     hs += [muxgen.random_history(rng, bad=0.02) for _ in range(300 if rep.tier == "quick" else 6000)]
     muxcheck.run_property(rep, "C02", CONE, hs, [muxcheck.oracle_c02],
                           "same history space as C01 (shape-exhaustive small + seeded random, debug and release); the real output is judged by the "
                           "independent parser/validator iso_check_file: top-level tiling, container sizes, per-track table totals, stss order, chunk "
-                          "extents inside mdat and pairwise disjoint, header durations within one tick, version/width consistency")
+                          "extents inside mdat and pairwise disjoint, header durations within one tick, version/width consistency. "
+                          "Media data just below / above 4 GiB is muxed for real through a sparse stream: mdat size form and value, top-level tiling (mdat reaches moov, moov reaches the end) on the real bytes.")
